@@ -568,3 +568,62 @@ func (b *lbuilder) emit(chosen []lopt) (Layout, bool) {
 	}
 	return Layout{Segments: out, Decoded: dec(b.root), Devs: devs, Reshaped: reshaped}, true
 }
+
+// Presets are the named whole-tree layouts of Preset.
+var Presets = []string{"default", "far", "skew", "upgrade"}
+
+// Preset returns one named layout in which a deviation is applied to EVERY
+// object it applies to (unlike Layouts, which bounds the number of
+// deviations):
+//
+//	default  the default layout
+//	far      every object in the segment after its parent's, far pointers;
+//	         objects at depth 3 double-far (pad in the third segment)
+//	skew     every struct / composite element with an extra zero data word
+//	         and null pointer, a garbage word in front of every object,
+//	         garbage in all list padding, objects allocated children-first
+//	         where possible
+//	upgrade  every void/byte/pointer list encoded as composite list; every
+//	         other object reached through a same-segment far pointer
+func Preset(v Value, name string) Layout {
+	b := &lbuilder{}
+	b.root = b.build(v, -1)
+	var chosen []lopt
+	depth := make([]int, len(b.objs))
+	for i, o := range b.objs {
+		if o.parent >= 0 {
+			depth[i] = depth[o.parent] + 1
+		}
+	}
+	for _, o := range b.options() {
+		zero := b.objs[o.obj].v.Kind == KindStruct && len(b.objs[o.obj].v.Data) == 0 && len(b.objs[o.obj].v.Ptrs) == 0
+		take := false
+		switch name {
+		case "far":
+			if depth[o.obj] >= 2 && !zero {
+				take = o.dim == dimEdge && o.choice == edgeDfar1
+			} else {
+				take = o.dim == dimEdge && o.choice == edgeFar1
+			}
+		case "skew":
+			take = o.dim == dimExtD || o.dim == dimExtP || o.dim == dimGap || o.dim == dimDirty || (o.dim == dimEarly && o.obj > 0)
+		case "upgrade":
+			up := false
+			if x := b.objs[o.obj].v; x.Kind == KindList {
+				switch x.Elem {
+				case ElemVoid, ElemByte1, ElemByte2, ElemByte4, ElemByte8, ElemPtr:
+					up = true
+				}
+			}
+			take = (up && o.dim == dimUpg) || (!up && o.dim == dimEdge && o.choice == edgeFar)
+		}
+		if take {
+			chosen = append(chosen, o)
+		}
+	}
+	l, ok := b.emit(chosen)
+	if !ok {
+		panic("ref: preset " + name + " not expressible for " + v.String())
+	}
+	return l
+}
